@@ -6,6 +6,7 @@ import (
 	"fmt"
 	"go/ast"
 	"go/types"
+	"golang.org/x/tools/go/cfg"
 	"strings"
 )
 
@@ -37,6 +38,9 @@ func init() {
 				Rule: "every rejection before admission returns a 4xx status, except the two internal failures (body read, TBS construction) which return 500", Run: c09g},
 			{ID: "C09.i", Title: "REJECT-INVENTORY", Template: "T2+T4", MinInst: 1,
 				Rule: "every return of the submission handler that precedes admission lies behind a refusing outcome of a recognised validator (body read/parse, empty or short chain, ValidateChain, IsPrecertificate, BuildPrecertTBS, the endpoint's type check): no other condition refuses a chain", Run: c09i},
+			{ID: "C09.k", Title: "ISSUERS-FOR-EVERY-ANSWER", Template: "T1", MinInst: 1,
+				Rule: "in the admission function no outcome (new leaf, duplicate in the pool, duplicate being sequenced, cache hit) is reachable without entering the loop that uploads every certificate of the submitted chain: a resubmission through a different chain still makes that chain's certificates retrievable issuers",
+				Run:  c09k},
 			{ID: "C09.j", Title: "TYPE-BRANCHES", Template: "T1", MinInst: 3,
 				Rule: "from the IsPrecertificate == true edge the pool is reached only through e.IsPrecert = true; from the IsPreIssuer(chain[1]) == true edge BuildPrecertTBS is reached only through preIssuer = chain[1]; both edges are live; in SetRootsFromPEM the upload and the pool swap are unreachable unless the new roots parsed", Run: c09j},
 		},
@@ -998,4 +1002,49 @@ func c09j(c *Ctx) {
 			}
 		}
 	}
+}
+
+// c09k: every return of the admission function lies behind the issuer loop.
+func c09k(c *Ctx) {
+	f := c.Fn("ctlog.(*Log).addLeafToPool")
+	if f == nil {
+		return
+	}
+	info := f.Info()
+	g := f.Graph()
+	inst := f.Name + " issuers before any answer"
+	leaf := f.paramObj("leaf")
+	var loop *ast.RangeStmt
+	ast.Inspect(f.Body, func(n ast.Node) bool {
+		if _, isLit := n.(*ast.FuncLit); isLit {
+			return false
+		}
+		if rs, ok := n.(*ast.RangeStmt); ok {
+			if r, p, ok := fieldPath(info, rs.X); ok && r == leaf && leaf != nil && len(p) == 1 && p[0] == "Issuers" {
+				loop = rs
+			}
+		}
+		return true
+	})
+	if loop == nil {
+		c.Bad(inst, f.Pos(f.Decl), "the admission function does not iterate over the submitted chain's issuers")
+		return
+	}
+	ups := 0
+	for _, s := range f.Calls(Callee{pkgCtlog, "Log", "uploadIssuer"}) {
+		if loop.Body.Pos() <= s.Call.Pos() && s.Call.End() <= loop.Body.End() && objOf(info, argByName(info, s.Call, "issuer")) == objOf(info, loop.Value) {
+			ups++
+		}
+	}
+	head := rangeHead(g, loop)
+	rets := f.Returns()
+	if ups == 0 || head == nil || len(rets) == 0 {
+		c.Unk(inst, "issuer upload loop or returns not identified")
+		return
+	}
+	if pt, path := g.ReachableFromEntry(Cut{NoEnter: func(b *cfg.Block) bool { return b == head }}, atAnySite(rets)); pt != nil {
+		c.Bad(inst, f.Pos(pt.B.Nodes[pt.I]), "a submission can be answered (duplicate or cache hit) on a path that never uploads the issuers of the chain it was submitted with (path "+g.describePath(path)+"): those certificates do not become retrievable issuers")
+		return
+	}
+	c.add(Result{Instance: inst, Verdict: Discharged, Evals: len(rets), Sites: []string{f.Pos(loop)}, Detail: "every return of the admission function is behind `for issuer := range leaf.Issuers { uploadIssuer }`"})
 }
